@@ -179,6 +179,7 @@ def run(ctx):
     surplus_cases(ctx, res, pending)
     c03.compare_model(ctx, res, pending)
     nil_cases(ctx, res)
+    hand_cases(ctx, res)
     header_cases(ctx, res)
     if pending:
         res.sample(dict(document=pending[len(pending) // 2][3]["document"][:500], strict=pending[len(pending) // 2][3]["strict"]))
@@ -254,6 +255,90 @@ def surplus_cases(ctx, res, pending):
                         pending.append(({"op": "xsd.parse", "mode": "strict" if strict else "lax", "ty": ty, "node": xmlcanon.node(d, strip_ws=True)}, r, ty, c))
                 if done >= (12 if ctx.tier == "thorough" else 4):
                     break
+
+
+HAND_XSD = ('<xs:schema xmlns:xs="http://www.w3.org/2001/XMLSchema" xmlns:t="urn:fam" targetNamespace="urn:fam" elementFormDefault="qualified">'
+            '<xs:element name="root" type="t:T1"/>'
+            '<xs:complexType name="T1"><xs:sequence><xs:element name="a" type="xs:string"/><xs:element name="note" type="xs:string" minOccurs="0"/>'
+            '<xs:element name="more" type="t:T2" minOccurs="0"/></xs:sequence></xs:complexType>'
+            '<xs:complexType name="T2"><xs:sequence><xs:element name="x" type="xs:string"/><xs:any processContents="%s" minOccurs="0" maxOccurs="unbounded"/></xs:sequence></xs:complexType>'
+            '<xs:element name="known"><xs:complexType><xs:sequence><xs:element name="k" type="xs:string"/></xs:sequence></xs:complexType></xs:element>'
+            '</xs:schema>')
+
+
+def hand_cases(ctx, res):
+    """(1) one compiled schema decodes replies first inside `with settings(strict=False)` and then strictly (and the other
+    way round): what the lenient decode saw must not make the strict decode accept it.  (2) a stranger *inside* the content
+    a wildcard matched against a declared global element (processContents lax / strict / skip)."""
+    import zeep.xsd
+    import zeep.settings
+    F = "urn:fam"
+    doc_foreign = '<f:root xmlns:f="urn:fam"><f:a>1</f:a><v:note xmlns:v="urn:vendor:ext">foreign</v:note></f:root>'
+    doc_stranger = '<f:root xmlns:f="urn:fam"><f:a>1</f:a><f:stranger>s</f:stranger></f:root>'
+    doc_ok = '<f:root xmlns:f="urn:fam"><f:a>1</f:a><f:note>n</f:note></f:root>'
+
+    def decode(zs, text):
+        try:
+            v = zs.get_element("{%s}root" % F).parse(etree.fromstring(text.encode()), zs)
+            return "ok", enginea.canon_value(v)
+        except Exception as e:  # noqa
+            return type(e).__name__, None
+    for order in ("lax-then-strict", "strict-then-lax-then-strict", "lax-in-thread-then-strict"):
+        for doc, label in ((doc_foreign, "foreign-namespace-same-local-name"), (doc_stranger, "undeclared")):
+            zs = zeep.xsd.Schema(etree.fromstring((HAND_XSD % "lax").encode()))
+            decode(zs, doc_ok)
+            steps = []
+            if order.startswith("strict"):
+                steps.append(("strict", decode(zs, doc)))
+            if order == "lax-in-thread-then-strict":
+                import threading
+
+                def lenient():
+                    with zs.settings(strict=False):
+                        steps.append(("lax", decode(zs, doc)))
+                t = threading.Thread(target=lenient)
+                t.start()
+                t.join()
+            else:
+                with zs.settings(strict=False):
+                    steps.append(("lax", decode(zs, doc)))
+            steps.append(("strict", decode(zs, doc)))
+            res.case(key=("hand-settings", order, label), nontrivial=True)
+            res.count("hand:lenient-then-strict")
+            for mode, (out, val) in steps:
+                c = dict(kind="hand", probe="settings-sequence", order=order, stranger=label, mode=mode)
+                if mode == "strict" and out == "ok":
+                    res.failures.append(dict(what="strict decoding accepted a reply with an element the schema does not allow, after the same schema "
+                                                  "had decoded it leniently (%s)" % order, case=c))
+                elif mode == "lax" and label == "undeclared" and out == "ok" and not contains_stranger_or_note(val):
+                    # (a foreign element sharing a declared local name is decoded *as* that element by non-strict sequences:
+                    # zeep's documented leniency, nothing vanishes)
+                    res.failures.append(dict(what="non-strict mode dropped the element without trace", case=c))
+    for pc in ("lax", "strict", "skip"):
+        zs = zeep.xsd.Schema(etree.fromstring((HAND_XSD % pc).encode()))
+        for inner, label in (('<f:known><f:k>v</f:k></f:known>', "declared-content"),
+                             ('<f:known><f:k>v</f:k><f:stranger>s</f:stranger></f:known>', "stranger-inside-declared-content"),
+                             ('<f:known><z:stranger xmlns:z="urn:zzz">s</z:stranger><f:k>v</f:k></f:known>', "stranger-before-declared-content")):
+            doc = '<f:root xmlns:f="urn:fam"><f:a>1</f:a><f:more><f:x>x</f:x>%s</f:more></f:root>' % inner
+            out, val = decode(zs, doc)
+            res.case(key=("hand-wildcard", pc, label), nontrivial=True)
+            res.count("hand:wildcard-content:" + pc)
+            c = dict(kind="hand", probe="wildcard-content", process_contents=pc, content=label, document=doc)
+            if label == "declared-content":
+                if out != "ok":
+                    res.failures.append(dict(what="valid wildcard content refused: %s" % out, case=c))
+            elif pc != "skip" and out == "ok":
+                res.failures.append(dict(what="strict decoding accepted an undeclared element inside wildcard content that is decoded against its global declaration", case=c))
+
+
+def contains_stranger_or_note(v):
+    if isinstance(v, dict):
+        if "__xml__" in v:
+            return True
+        return any(contains_stranger_or_note(x) for x in v.values())
+    if isinstance(v, list):
+        return any(contains_stranger_or_note(x) for x in v)
+    return False
 
 
 NIL_XSD = ('<xs:schema xmlns:xs="http://www.w3.org/2001/XMLSchema" xmlns:t="urn:fam" targetNamespace="urn:fam" elementFormDefault="qualified">'
@@ -370,6 +455,11 @@ def search(ctx):
 
 def replay(ctx, payload):
     c = payload.get("case", payload)
+    if c.get("kind") == "hand":
+        r = Result()
+        hand_cases(ctx, r)
+        bad = [f for f in r.failures if f["case"].get("probe") == c.get("probe")]
+        return (not bad), "hand-written probe rerun: %s" % (bad[0]["what"] if bad else "holds")
     if c.get("kind") == "nil-complex":
         r = Result()
         nil_cases(ctx, r)
